@@ -106,13 +106,13 @@ theorem syncPF_post (n : Net) (st : HState) (m : DMon) (p clock : Nat) (r1 r2 : 
 /-- `t` can be the slot of the next tick -/
 def Cand (lt : Option Nat) (now t : Nat) : Prop := (∀ t0, lt = some t0 → t0 < t) ∧ now ≤ t
 
-structure SInv (n : Net) (st : HState) (m : DMon) (lt : Option Nat) (now : Nat) (pend : Option Nat) : Prop where
+structure SInv (n : Net) (st : HState) (m : DMon) (lt : Option Nat) (now : Nat) (le : Option Nat) : Prop where
   ok : m.ok = true
   ltnow : ∀ t, lt = some t → t ≤ now
   s1 : st.fetchFirst = true → st.fetchCur = true ∧ st.fetchNext = true
   dueLe : ∀ K A, m.due K = some A → K ≤ n.periodOfSlot now + 1
-  pendle : ∀ r, pend = some r → r ≤ now
-  A : ∀ t, Cand lt now t → st.fetchFirst = true ∨ (∃ r, pend = some r ∧ n.periodOfSlot r < n.periodOfSlot t) ∨
+  leLe : ∀ K, le = some K → K ≤ n.periodOfSlot now
+  A : ∀ t, Cand lt now t → st.fetchFirst = true ∨ (st.fetchNext = true ∧ le ≠ some (n.periodOfSlot t)) ∨
         Cov .sync st m (n.periodOfSlot t)
   B : ∀ t, Cand lt now t → Cov .sync st m (n.periodOfSlot t + 1) ∨ st.fetchNext = true
 
@@ -134,14 +134,15 @@ theorem syncTick_core (n : Net) {st : HState} {m : DMon} {now : Nat} (t0 clock :
     (hdueLe : ∀ K A, m.due K = some A → K ≤ n.periodOfSlot now + 1) (hnow : now ≤ t0)
     (hA : st.fetchFirst = true ∨ Cov .sync st m (n.periodOfSlot t0))
     (hB : Cov .sync st m (n.periodOfSlot t0 + 1) ∨ st.fetchNext = true) :
-    SInv n (syncTick n st t0 clock r1 r2).1 (drun .sync n m (syncTick n st t0 clock r1 r2).2) (some t0) t0 none := by
+    SInv n (syncTick n st t0 clock r1 r2).1 (drun .sync n m (syncTick n st t0 clock r1 r2).2) (some t0) t0
+      (some (n.periodOfSlot t0)) := by
   have hpm := periodOfSlot_mono n hnow
   obtain ⟨store, ff, fc, fn, ic⟩ := st
   -- what remains to be shown once both periods are covered after the fetches
   have fin : ∀ (s : HState) (m2 : DMon), m2.ok = true → s.fetchFirst = false →
       Cov .sync s m2 (n.periodOfSlot t0) → Cov .sync s m2 (n.periodOfSlot t0 + 1) →
       (∀ K A, m2.due K = some A → K = n.periodOfSlot t0 ∨ K = n.periodOfSlot t0 + 1 ∨ m.due K = some A) →
-      SInv n (syncPost n s t0) m2 (some t0) t0 none := by
+      SInv n (syncPost n s t0) m2 (some t0) t0 (some (n.periodOfSlot t0)) := by
     intro s m2 hok hff hc0 hc1 hk
     have hdue : ∀ K A, m2.due K = some A → K ≤ n.periodOfSlot t0 + 1 := by
       intro K A hA'
@@ -160,7 +161,8 @@ theorem syncTick_core (n : Net) {st : HState} {m : DMon} {now : Nat} (t0 clock :
           cases hd : m2.due K with
           | none => rfl
           | some A => have := hdue K A hd; omega
-    refine ⟨hok, fun t ht => by cases ht; exact Nat.le_refl _, ?_, hdue, fun r hr => (nomatch hr), ?_, ?_⟩
+    refine ⟨hok, fun t ht => by cases ht; exact Nat.le_refl _, ?_, hdue,
+      fun K hK => by cases hK; exact Nat.le_refl _, ?_, ?_⟩
     · intro hh; rw [syncPost_ff, hff] at hh; cases hh
     · intro t ht
       exact Or.inr (Or.inr (hall _ (periodOfSlot_mono n ht.2)))
@@ -206,70 +208,77 @@ theorem syncTick_core (n : Net) {st : HState} {m : DMon} {now : Nat} (t0 clock :
     rw [hx.2] at hA'
     exact pf.keys K A hA'
 
-theorem syncTick_sinv (n : Net) {st : HState} {m : DMon} {lt : Option Nat} {now : Nat} {pend : Option Nat}
-    (t0 clock : Nat) (r1 r2 : FetchRes) (h : SInv n st m lt now pend) (hc : Cand lt now t0)
-    (hq : ∀ r, pend = some r → ¬ n.periodOfSlot r < n.periodOfSlot t0) :
-    SInv n (syncTick n st t0 clock r1 r2).1 (drun .sync n m (syncTick n st t0 clock r1 r2).2) (some t0) t0 none := by
-  apply syncTick_core n t0 clock r1 r2 h.ok h.s1 h.dueLe hc.2
-  · rcases h.A t0 hc with h1 | ⟨r, hr, hlt⟩ | h1
-    · exact Or.inl h1
-    · exact absurd hlt (hq r hr)
-    · exact Or.inr h1
-  · exact h.B t0 hc
-
 theorem Cand.mono {lt : Option Nat} {now now' t : Nat} (h : Cand lt now' t) (hle : now ≤ now') : Cand lt now t :=
   ⟨h.1, Nat.le_trans hle h.2⟩
 
-theorem keepOldest_cases (pend : Option Nat) (r : Nat) :
-    (pend = none ∧ keepOldest pend r = some r) ∨ (∃ r0, pend = some r0 ∧ keepOldest pend r = some r0) := by
-  cases pend with
-  | none => exact Or.inl ⟨rfl, rfl⟩
-  | some r0 => exact Or.inr ⟨r0, rfl, rfl⟩
-
-theorem syncReorg_sinv (n : Net) {st : HState} {m : DMon} {lt : Option Nat} {now : Nat} {pend : Option Nat}
-    (r : Nat) (cur : Bool) (h : SInv n st m lt now pend) (hnow : now ≤ r) :
-    SInv n (syncReorg n st r cur) m lt r
-      (if (cur && syncShouldFetchNext n r) = true then keepOldest pend r else pend) := by
-  have hpm := periodOfSlot_mono n hnow
-  unfold syncReorg
+theorem syncTick_inv (n : Net) {st : HState} {m : DMon} {lt : Option Nat} {now : Nat} {le : Option Nat}
+    (t0 clock : Nat) (r1 r2 : FetchRes) (h : SInv n st m lt now le) (hc : Cand lt now t0) :
+    SInv n (syncTick n (repairPre st le (n.periodOfSlot t0)) t0 clock r1 r2).1
+      (drun .sync n m (syncTick n (repairPre st le (n.periodOfSlot t0)) t0 clock r1 r2).2) (some t0) t0
+      (some (n.periodOfSlot t0)) := by
+  unfold repairPre
   split
-  · -- the next period's duties are reset and must be re-fetched
-    refine ⟨h.ok, fun t ht => Nat.le_trans (h.ltnow t ht) hnow, fun hf => ⟨(h.s1 hf).1, rfl⟩,
-      fun K A hA => by have := h.dueLe K A hA; omega, ?_, ?_, fun t _ => Or.inr rfl⟩
-    · intro r' hr'
-      rcases keepOldest_cases pend r with ⟨_, h2⟩ | ⟨r0, h1, h2⟩
-      · rw [h2] at hr'; have := Option.some.inj hr'; omega
-      · rw [h2] at hr'; have := Option.some.inj hr'; have := h.pendle r0 h1; omega
-    · intro t ht
-      have hpt := periodOfSlot_mono n ht.2
-      by_cases heq : n.periodOfSlot t = n.periodOfSlot r + 1
-      · -- a tick in the period whose duties were just reset: excluded by the side condition
-        refine Or.inr (Or.inl ?_)
-        rcases keepOldest_cases pend r with ⟨_, h2⟩ | ⟨r0, h1, h2⟩
-        · exact ⟨r, h2, by omega⟩
-        · have := periodOfSlot_mono n (Nat.le_trans (h.pendle r0 h1) hnow)
-          exact ⟨r0, h2, by omega⟩
-      · rcases h.A t (ht.mono hnow) with h1 | ⟨r0, h1, h2⟩ | h1
-        · exact Or.inl h1
-        · refine Or.inr (Or.inl ⟨r0, ?_, h2⟩)
-          rw [h1]; rfl
-        · exact Or.inr (Or.inr (h1.of_reset rfl (by omega)))
-  · refine ⟨h.ok, fun t ht => Nat.le_trans (h.ltnow t ht) hnow, h.s1,
-      fun K A hA => by have := h.dueLe K A hA; omega,
-      fun r' hr' => Nat.le_trans (h.pendle r' hr') hnow, fun t ht => h.A t (ht.mono hnow), fun t ht => h.B t (ht.mono hnow)⟩
+  · rename_i hcond
+    simp only [Bool.and_eq_true, bne_iff_ne, ne_eq] at hcond
+    exact syncTick_core n (st := { st with fetchCur := true, fetchFirst := true }) t0 clock r1 r2 h.ok
+      (fun _ => ⟨rfl, hcond.2⟩) h.dueLe hc.2 (Or.inl rfl) (Or.inr hcond.2)
+  · rename_i hcond
+    simp only [Bool.and_eq_true, bne_iff_ne, ne_eq, not_and] at hcond
+    have hA : st.fetchFirst = true ∨ Cov .sync st m (n.periodOfSlot t0) := by
+      rcases h.A t0 hc with h1 | ⟨h1, h2⟩ | h1
+      · exact Or.inl h1
+      · exact absurd h1 (hcond h2)
+      · exact Or.inr h1
+    exact syncTick_core n t0 clock r1 r2 h.ok h.s1 h.dueLe hc.2 hA (h.B t0 hc)
 
-theorem syncIndices_sinv (n : Net) {st : HState} {m : DMon} {lt : Option Nat} {now : Nat} {pend : Option Nat}
-    (c : Nat) (h : SInv n st m lt now pend) (hnow : now ≤ c) : SInv n (syncIndices n st c) m lt c pend := by
+/-- a reorg notice, handled at any time (its slot `r` may be older than the last tick) -/
+theorem syncReorg_inv (n : Net) {st : HState} {m : DMon} {lt : Option Nat} {now : Nat} {le : Option Nat}
+    (r : Nat) (cur : Bool) (h : SInv n st m lt now le) :
+    SInv n (syncReorgN n st le r cur) m lt (max now r) le := by
+  have hnow : now ≤ max now r := Nat.le_max_left _ _
+  have hpm := periodOfSlot_mono n hnow
+  by_cases hc : (cur && syncShouldFetchNext n r) = true
+  · by_cases hle : le = some (n.periodOfSlot r + 1)
+    · -- late notice: the period that is reset is the one being ticked ⇒ fetch first
+      have hbeq : (le == some (n.periodOfSlot r + 1)) = true := by simp [hle]
+      simp only [syncReorgN, syncReorg, hc, if_true, lateFix, hbeq]
+      exact ⟨h.ok, fun t ht => Nat.le_trans (h.ltnow t ht) hnow, fun _ => ⟨rfl, rfl⟩,
+        fun K A hA => by have := h.dueLe K A hA; omega, fun K hK => by have := h.leLe K hK; omega,
+        fun t _ => Or.inl rfl, fun t _ => Or.inr rfl⟩
+    · have hbeq : (le == some (n.periodOfSlot r + 1)) = false := by simpa using hle
+      simp only [syncReorgN, syncReorg, hc, if_true, lateFix, hbeq, Bool.false_eq_true, if_false]
+      refine ⟨h.ok, fun t ht => Nat.le_trans (h.ltnow t ht) hnow, fun hf => ⟨(h.s1 hf).1, rfl⟩,
+        fun K A hA => by have := h.dueLe K A hA; omega, fun K hK => by have := h.leLe K hK; omega, ?_,
+        fun t _ => Or.inr rfl⟩
+      intro t ht
+      by_cases hlt : le = some (n.periodOfSlot t)
+      · rcases h.A t (ht.mono hnow) with h1 | h1 | h1
+        · exact Or.inl h1
+        · exact absurd hlt h1.2
+        · refine Or.inr (Or.inr (h1.of_reset rfl ?_))
+          intro heq
+          rw [← heq] at hlt
+          exact hle hlt
+      · exact Or.inr (Or.inl ⟨rfl, hlt⟩)
+  · have hcf : (cur && syncShouldFetchNext n r) = false := by simpa using hc
+    simp only [syncReorgN, syncReorg, hcf, Bool.false_eq_true, if_false]
+    exact ⟨h.ok, fun t ht => Nat.le_trans (h.ltnow t ht) hnow, h.s1,
+      fun K A hA => by have := h.dueLe K A hA; omega, fun K hK => by have := h.leLe K hK; omega,
+      fun t ht => h.A t (ht.mono hnow), fun t ht => h.B t (ht.mono hnow)⟩
+
+theorem syncIndices_inv (n : Net) {st : HState} {m : DMon} {lt : Option Nat} {now : Nat} {le : Option Nat}
+    (c : Nat) (h : SInv n st m lt now le) : SInv n (syncIndices n st c) m lt (max now c) le := by
+  have hnow : now ≤ max now c := Nat.le_max_left _ _
   have hpm := periodOfSlot_mono n hnow
   have base : ∀ st' : HState, st'.store = st.store → st'.fetchFirst = st.fetchFirst → st'.fetchCur = true →
-      (st.fetchNext = true → st'.fetchNext = true) → SInv n st' m lt c pend := by
+      (st.fetchNext = true → st'.fetchNext = true) → SInv n st' m lt (max now c) le := by
     intro st' hs hff hfc hfn
     refine ⟨h.ok, fun t ht => Nat.le_trans (h.ltnow t ht) hnow, fun hf => ⟨hfc, hfn (h.s1 (by rw [← hff]; exact hf)).2⟩,
-      fun K A hA => by have := h.dueLe K A hA; omega, fun r' hr' => Nat.le_trans (h.pendle r' hr') hnow, ?_, ?_⟩
+      fun K A hA => by have := h.dueLe K A hA; omega, fun K hK => by have := h.leLe K hK; omega, ?_, ?_⟩
     · intro t ht
       rcases h.A t (ht.mono hnow) with h1 | h1 | h1
       · exact Or.inl (by rw [hff]; exact h1)
-      · exact Or.inr (Or.inl h1)
+      · exact Or.inr (Or.inl ⟨hfn h1.1, h1.2⟩)
       · exact Or.inr (Or.inr (h1.of_store_eq hs))
     · intro t ht
       rcases h.B t (ht.mono hnow) with h1 | h1
@@ -280,62 +289,43 @@ theorem syncIndices_sinv (n : Net) {st : HState} {m : DMon} {lt : Option Nat} {n
   · exact base _ rfl rfl rfl (fun _ => rfl)
   · exact base _ rfl rfl rfl (fun hh => hh)
 
-theorem quiet_sync_tick (n : Net) (ff : Bool) (pend : Option Nat) (s c : Nat) (r1 r2 : FetchRes) (es : List Event)
-    (h : quietOK .sync n ff pend (.tick s c r1 r2 :: es) = true) :
-    (∀ r, pend = some r → ¬ n.periodOfSlot r < n.periodOfSlot s) ∧ quietOK .sync n false none es = true := by
-  simp only [quietOK, Bool.and_eq_true] at h
-  refine ⟨?_, h.2⟩
-  intro r hr
-  rw [hr] at h
-  simpa [keyOf] using h.1
-
-theorem quiet_sync_reorg (n : Net) (ff : Bool) (pend : Option Nat) (r : Nat) (p c : Bool) (es : List Event)
-    (h : quietOK .sync n ff pend (.reorg r p c :: es) = true) :
-    quietOK .sync n ff (if (c && syncShouldFetchNext n r) = true then keepOldest pend r else pend) es = true := by
-  cases c <;> cases hs : syncShouldFetchNext n r <;> simp_all [quietOK]
-
-theorem quiet_sync_indices (n : Net) (ff : Bool) (pend : Option Nat) (c : Nat) (es : List Event)
-    (h : quietOK .sync n ff pend (.indices c :: es) = true) : quietOK .sync n ff pend es = true := by
-  simpa [quietOK] using h
-
-theorem sync_exactly_runFrom (n : Net) : ∀ (evs : List Event) (st : HState) (m : DMon) (lt : Option Nat) (now : Nat)
-    (ff : Bool) (pend : Option Nat),
-    SInv n st m lt now pend → envOK lt now evs = true → quietOK .sync n ff pend evs = true →
-    (drun .sync n m (runFrom .sync n st evs)).ok = true := by
+theorem sync_exactly_runFrom (n : Net) : ∀ (evs : List Event) (rs : RState) (m : DMon) (lt : Option Nat) (now : Nat),
+    SInv n rs.st m lt now rs.le → envOK lt now evs = true →
+    (drun .sync n m (runFrom .sync n rs evs)).ok = true := by
   intro evs
   induction evs with
-  | nil => intro st m lt now ff pend h _ _; exact h.ok
+  | nil => intro rs m lt now h _; exact h.ok
   | cons e es ih =>
-    intro st m lt now ff pend h henv hq
-    obtain ⟨hnow, hlt, henv'⟩ := envOK_cons henv
+    intro rs m lt now h henv
+    obtain ⟨htick, henv'⟩ := envOK_cons henv
     cases e with
     | tick s c r1 r2 =>
-      obtain ⟨hq1, hq2⟩ := quiet_sync_tick n ff pend s c r1 r2 es hq
-      have hc : Cand lt now s := ⟨fun t0 ht0 => hlt t0 ht0 s c r1 r2 rfl, hnow⟩
-      simp only [runFrom, drun_append, step, syncStep]
-      exact ih _ _ _ _ false none (syncTick_sinv n s c r1 r2 h hc hq1) henv' hq2
+      obtain ⟨hnow, hlt⟩ := htick s c r1 r2 rfl
+      have hc : Cand lt now s := ⟨hlt, hnow⟩
+      simp only [runFrom, step, drun_append]
+      exact ih ⟨_, _⟩ _ _ _ (syncTick_inv n s c r1 r2 h hc) henv'
     | reorg r p c =>
-      simp only [runFrom, step, syncStep, List.nil_append]
-      exact ih _ _ _ _ ff _ (syncReorg_sinv n r c h hnow) henv' (quiet_sync_reorg n ff pend r p c es hq)
+      simp only [runFrom, step, List.nil_append]
+      exact ih ⟨_, _⟩ _ _ _ (syncReorg_inv n r c h) henv'
     | indices c =>
-      simp only [runFrom, step, syncStep, List.nil_append]
-      exact ih _ _ _ _ ff _ (syncIndices_sinv n c h hnow) henv' (quiet_sync_indices n ff pend c es hq)
+      simp only [runFrom, step, List.nil_append]
+      exact ih ⟨_, _⟩ _ _ _ (syncIndices_inv n c h) henv'
 
 theorem sync_exactly_run (n : Net) (clock0 : Nat) (r0 : FetchRes) (evs : List Event)
-    (henv : envOK none clock0 evs = true) (hq : quietOK .sync n (ffInit .sync) none evs = true) :
-    exactlyOnceOK .sync n (run .sync n clock0 r0 evs) = true := by
+    (henv : envOK none clock0 evs = true) : exactlyOnceOK .sync n (run .sync n clock0 r0 evs) = true := by
   unfold exactlyOnceOK run
   have fp := syncFetch_post n ⟨[], true, true, false, false⟩ DMon.init (n.periodOfSlot clock0) clock0 r0
-  have h0 : SInv n (syncInit n clock0 r0).1 (drun .sync n DMon.init (syncInit n clock0 r0).2) none clock0 none := by
-    simp only [syncInit]
-    refine ⟨by rw [fp.okeq]; rfl, fun t ht => (nomatch ht), fun _ => ⟨rfl, rfl⟩, ?_, fun r hr => (nomatch hr),
+  have h0 : SInv n (initH .sync n clock0 r0).1.st (drun .sync n DMon.init (initH .sync n clock0 r0).2) none clock0
+      (initH .sync n clock0 r0).1.le := by
+    simp only [initH, syncInit]
+    refine ⟨by rw [fp.okeq]; rfl, fun t ht => (nomatch ht), fun _ => ⟨rfl, rfl⟩, ?_, fun K hK => (nomatch hK),
       fun t _ => Or.inl ?_, fun t _ => Or.inr rfl⟩
     · intro K A hA
       rcases fp.keys K A hA with h1 | h1
       · omega
       · cases h1
     · rw [(syncFetch_flags n _ _ clock0 r0).1]
-  have := sync_exactly_runFrom n evs _ _ none clock0 _ none h0 henv hq
-  simpa [initH, drun, List.foldl_append] using this
+  have := sync_exactly_runFrom n evs _ _ none clock0 h0 henv
+  simpa [drun, List.foldl_append] using this
 
 end Ssv.Duties
